@@ -122,7 +122,9 @@ def check(case, ctx):
         if case["planted"] and case["estimator"] in ("default", "lr_noint", "ridge"):
             # recovery is claimed for an (essentially) exact underlying linear fit; a strongly regularised estimator shrinks
             # the coefficient matrix and with it the reduced spaces
-            ctx.true("recovery", res <= 1e-7 * ny, "planted orthogonal map not recovered: residual %.3e (|y| %.3e)" % (res, ny))
+            smin = float(np.linalg.svd(X, compute_uv=False)[-1])
+            bias = 10 * 1e-10 / max(smin ** 2, 1e-300) if case["estimator"] == "ridge" else 0.0     # shrinkage of Ridge(1e-10)
+            ctx.true("recovery", res <= (1e-7 + bias) * ny, "planted orthogonal map not recovered: residual %.3e (|y| %.3e)" % (res, ny))
         ctx.true("pred-shape", pred.shape == (n, g), "predict shape %s" % (pred.shape,))
     else:
         mx = max(f, g)
